@@ -6,7 +6,7 @@ from specs import common as C
 META = {
     "level": "model_checking",
     "bounds": {
-        "quick": "8 pointee types x 8 index types x {+,-,[]} plus +=,-=,&p[n] for int/long index and ++/-- (pre/post) on the LP32 backend B32; "
+        "quick": "9 pointee types (incl. a two-dimensional array) x 8 index types x {+,-,[]} plus +=,-=,&p[n] for int/long index and ++/-- (pre/post) on the LP32 backend B32; "
                  "base, p (null or anywhere in the 4 GiB region) and n (full width of its type) symbolic",
         "thorough": "8 pointees x 13 index types x {+,-,+=,-=,[],&[]} and ++/-- on B32 and B16",
     },
@@ -18,11 +18,15 @@ META = {
 def pointees(ptr_bytes):
     return [("char", "char", 1), ("short", "short", 2), ("int", "int", 4), ("long", "long", 4), ("llong", "long long", 8),
             ("intp", "int*", ptr_bytes), ("vs24", "VS24", 8 + ptr_bytes if ptr_bytes == 4 else 4 + 2 + 2 + 4),
-            ("arr4", "int[4]", 16)]
+            ("arr4", "int[4]", 16), ("arr23", "long[2][3]", 24)]
 
 
 def ptr_type(pt):
-    return "int(*)[4]" if pt == "int[4]" else pt + "*"
+    if pt == "int[4]":
+        return "int(*)[4]"
+    if pt == "long[2][3]":
+        return "long(*)[2][3]"
+    return pt + "*"
 
 
 IDX = {t.tag: t for t in C.STD_INTS if t.tag not in ("char",)}
